@@ -34,6 +34,7 @@ struct SolGenOpts {
   bool awkward = true;       // 17-digit values, subnormals, -0
   bool nonfinite = false;    // allow Inf/NaN entries
   bool reader_friendly_options = false;   // only option counts the reader documents (3..9) and no vbtol form
+  bool long_vectors = true;  // now and then vectors of several hundred values
 };
 Sol gen_sol(Rng& rng, const SolGenOpts& o);
 
